@@ -34,10 +34,22 @@ def gen_task(rnd, family):
 
 
 def gen_scenario(seed, family="mixed"):
+    if family.startswith("reuse"):
+        return gen_reusable(seed, family)
     rnd = random.Random(f"scen/{family}/{seed}")
+    if family == "saturate":
+        mw = rnd.choice([1, 2, 3])
+        nt = mw + rnd.randint(0, 3)
+        u0 = [["create"]] + [["submit", k] for k in range(nt)]
+        users = [u0]
+        if rnd.random() < 0.4 and nt > 1:
+            cut = rnd.randint(1, nt - 1)
+            users = [u0[:1 + cut], [["submit", k] for k in range(cut, nt)]]
+        return {"kind": "plain", "max_workers": mw, "timeout": None, "tasks": [{"body": "ok"}] * nt, "family": family,
+                "users": users, "sched": {"p_timeout": 0.0, "p_crash": 0.0, "max_crashes": 0}}
     mw = rnd.choice([1, 1, 2, 2, 3])
     nt = rnd.randint(1, 6)
-    use_timeout = rnd.random() < (0.0 if family in ("notimeout",) else 0.5)
+    use_timeout = rnd.random() < (0.0 if family in ("notimeout",) else 1.0 if family == "timeouts" else 0.5)
     scen = {"kind": "plain", "max_workers": mw, "timeout": 5 if use_timeout else None,
             "tasks": [gen_task(rnd, family) for _ in range(nt)], "family": family}
     if family in ("init", "mixed") and rnd.random() < (0.5 if family == "init" else 0.1):
@@ -60,6 +72,8 @@ def gen_scenario(seed, family="mixed"):
                 u1.append(["cancel", k])
         users.append(u1)
     r = rnd.random()
+    if family == "graceful":
+        r = r * 0.68 if r > 0.1 else 0.9
     if family == "kill":
         end = ["shutdown", True, True]
     elif r < 0.35:
@@ -82,9 +96,51 @@ def gen_scenario(seed, family="mixed"):
             u0.append(["drop"])
     scen["users"] = users
     # schedule parameters
-    scen["sched"] = {"p_timeout": (rnd.choice([0.02, 0.1, 0.3]) if use_timeout else 0.0),
+    scen["sched"] = {"p_timeout": (rnd.choice([0.02, 0.1, 0.3, 0.6] if family == "timeouts" else [0.02, 0.1, 0.3])
+                                   if use_timeout else 0.0),
                      "p_crash": (rnd.choice([0.0, 0.004, 0.015]) if family in ("crash", "mixed") else 0.0),
                      "max_crashes": rnd.choice([1, 1, 2])}
+    return scen
+
+
+def gen_reusable(seed, family="reuse"):
+    """histories of get_reusable_executor calls (resizes, replacements) interleaved with submissions"""
+    rnd = random.Random(f"scen/{family}/{seed}")
+    nt = rnd.randint(1, 6)
+    use_timeout = rnd.random() < 0.6
+    scen = {"kind": "reusable", "max_workers": 2, "timeout": 5 if use_timeout else None, "cpu_count": 2,
+            "tasks": [gen_task(rnd, "plain") for _ in range(nt)], "family": family}
+    def call(first=False):
+        a = {"max_workers": rnd.choice([1, 2, 3, 4]), "timeout": 5 if use_timeout else None}
+        if not first:
+            r = rnd.random()
+            if r < 0.15:
+                a["reuse"] = True
+            elif r < 0.3:
+                a["reuse"] = False
+            if rnd.random() < 0.15:
+                a["kill_workers"] = True
+            if rnd.random() < 0.1:
+                a["newinit"] = True
+        return ["reusable", a]
+    users = []
+    nu = rnd.choice([1, 1, 2])
+    ids = list(range(nt))
+    rnd.shuffle(ids)
+    for u in range(nu):
+        sc = [call(first=(u == 0))]
+        mine = ids[u::nu]
+        for k in mine:
+            sc.append(["submit", k])
+            if rnd.random() < 0.45:
+                sc.append(call())
+        if rnd.random() < 0.2:
+            sc.append(["shutdown", True, rnd.random() < 0.3])
+            sc.append(call())
+        users.append(sc)
+    scen["users"] = users
+    scen["sched"] = {"p_timeout": (rnd.choice([0.02, 0.1, 0.3]) if use_timeout else 0.0),
+                     "p_crash": (rnd.choice([0.0, 0.0, 0.01]) if family == "reusecrash" else 0.0), "max_crashes": 1}
     return scen
 
 
